@@ -39,6 +39,13 @@ def _cidr_bits(c):
 
 
 def pytest_configure(config):
+    try:
+        _install()
+    except Exception as e:          # a refactoring moved a seam: record nothing rather than break the suite
+        _emit("recorder_error", {"error": repr(e)})
+
+
+def _install():
     from netconan import ip_anonymization as ipa
     from netconan.utils import juniper_secrets as J
 
